@@ -9,7 +9,7 @@ HOOKS = dict(
 )
 
 ENGINES = [
-    dict(name="mirsym", path="lib/mirsym/sym.py", serves_properties=["C09", "C11"],
+    dict(name="mirsym", path="lib/mirsym/sym.py", serves_properties=["C09", "C11", "C20"],
          kind_free_text="MIR -> SMT symbolic execution of loop-free integer fragments (a closure body, a block range of a larger function): path enumeration over the nightly compiler's MIR of the real code, "
                         "u32 inputs as z3 bit-vectors, core integer / Option methods by their documented semantics, formatting calls recorded as events; each path's panic-freedom and post-condition is one z3 query over ALL input values; "
                         "satisfying assignments are replayed through the public API of the real crate (dev and release) before a violation is reported"),
@@ -38,7 +38,7 @@ CLAIMED = {
         technique="bounded model checking (Kani/CBMC SAT with float bit-blasting) of the real clamp, exact-tail, rank and Pettitt-location code against brute-force definitions",
         design_ref="DESIGN.md §4 C20",
         text="clamp_p_value decided for EVERY f64 (NaN / infinities -> 1.0, result always in [1e-15, 1]); exact_tail_p_values on 2 (3 thorough) arbitrary finite non-negative counts: every reported p in the reportable range; scaled_average_ranks on 3 ARBITRARY f64 equals the brute-force definition under the documented total order and depends only on the order of the data (monotone invariance); "
-             "pettitt_rank_location on 2-4 doubled ranks equals integer brute force (location, prefix rank sum - also for flat series -, statistic); mann_whitney_tie_term on 3 ranks; median of 3 arbitrary / 2 finite f64; exact_mw_feasible for n1,n2 <= 40 (thorough). Partial claim: the rank layer and the reporting range only. Bounded, not a proof.",
+             "pettitt_rank_location on 2-4 doubled ranks equals integer brute force (location, prefix rank sum - also for flat series -, statistic); mann_whitney_tie_term on 3 ranks; median of 3 arbitrary / 2 finite f64; exact_mw_feasible for n1,n2 <= 40 (thorough); mirsym (MIR -> z3, every usize): the change-point selection scorer asks the exactness oracle about exactly the two sides of each split (size, n - size), i.e. the exact tail is used for the same splits as in MannWhitneyU. Partial claim: the rank layer and the reporting range only. Bounded, not a proof.",
         note="Transcendental / iterated float code (normal and Student-t tails, exact rank-sum DP) and larger samples are outside the claim. Trusts Kani/CBMC/CaDiCaL.",
     ),
     "C05": dict(
